@@ -199,10 +199,21 @@ type Chain struct {
 	SlotSteps                 []HonestSlots
 	prevEff                   []common.Gwei
 	cancelDone                map[string]bool
+	zeroKeys                  map[KeyNum]bool
+	zeroIndex                 map[common.ValidatorIndex]bool
 	depForkIndex              uint64
 	depForkKey                KeyNum
 	depForkArmed              bool
 	Phase0LeakMix             bool
+	SyncSeat                  bool
+	seatPhase                 int
+	seatM                     common.ValidatorIndex
+	Protected                 map[common.ValidatorIndex]bool
+	lateAbsent                map[common.ValidatorIndex]bool // validators that stop attesting / sync-signing from lateAbsentFrom on
+	lateAbsentFrom            common.Epoch
+	siblingDone               bool
+	isSide                    bool // a side producer (forkChain)
+	NoDoubleVotes             bool
 	LowBalances               bool
 	CommitteeDropChain        bool
 	wrongTargetIncluded       map[common.Epoch]int
